@@ -122,7 +122,10 @@ def amValues (m : AliasMap) : List (DS × String) :=
   let vals := keys.filterMap (amGet m)
   vals.foldl (fun acc v => if acc.any (·.1 == v.1) then acc else acc ++ [v]) []
 
-/-- `get_alias_mapping_from_table_group` (holders.py:187‑205): `alias_map | unqualified_map | qualified_map` -/
+/-- `get_alias_mapping_from_table_group` (holders.py:187‑224, with the D7 repair):
+    `unqualified_map | qualified_map | default_alias_map | explicit_alias_map` (later wins) — bare / qualified table names <
+    the name of a table WITHOUT alias (its default alias) < an alias written in the query (alias ≠ the table's own bare
+    name; every subquery alias) -/
 def aliasMapping (g : LGraph) (grp : List DObj) : AliasMap :=
   let inGrp := fun (d : DS) => grp.any (·.d == d)
   let aliasMap : AliasMap := g.edgesOrdered.filterMap (fun e =>
@@ -132,7 +135,12 @@ def aliasMapping (g : LGraph) (grp : List DObj) : AliasMap :=
   let tables := grp.filter (fun o => o.d.isTable)
   let unq : AliasMap := tables.filterMap (fun o => match o.d with | .table _ n => some (n, (o.d, o.printed)) | _ => none)
   let qual : AliasMap := tables.map (fun o => (o.printed, (o.d, o.printed)))
-  aliasMap ++ unq ++ qual
+  let dflt : AliasMap := tables.filterMap (fun o =>
+    match o.d with
+    | .table _ n => if o.alias == some n then some (n, (o.d, o.printed)) else none
+    | _ => none)
+  let isExplicit := fun (e : String × (DS × String)) => match e.2.1 with | .table _ n => e.1 != n | _ => true
+  unq ++ qual ++ dflt ++ aliasMap.filter isExplicit
 
 /-- a select item / SET clause as the extractors leave it: target name (already normalised by `Column.__init__`),
     normalised source references, `from_alias` -/
